@@ -329,6 +329,8 @@ func ruleC10(w *World, r *Report) {
 	// R10.11: two associations never draw the same local SEIDs — ending one would delete the other's rules and addresses (C06 R06.7)
 	r.withRule("R10.11", func() { ruleC06SeidEntropy(w, r) })
 	ruleC12HbSignal(w, r, w.Fn(P, "pfcpiface.(*PFCPConn).handleHeartbeatRequest"), "R10.12")
+	ruleHTTPShutdownBounded(w, r, P, "R10.13")
+	ruleNewConnOnlyForUnknownPeer(w, r, P, "R10.14")
 	ruleC10Triggers(w, r)
 	ruleC10Forget(w, r)
 	ruleC10Stop(w, r)
